@@ -9,6 +9,7 @@
   holds in every reachable state is a statement about every prefix of every trace (hence about order).
 -/
 import MitmVerif.Lemmas.C09
+import MitmVerif.Lemmas.C09Sem
 import MitmVerif.Gen.C09
 namespace MitmVerif.Props.C09
 open MitmVerif.C09
@@ -51,16 +52,55 @@ theorem connected_then_disconnected_once {n : Nat} {s : St} (h : Reach n s) :
     address exist at any time, in every reachable state of every schedule. -/
 theorem at_most_five_per_address {s : St} (h : Reach MitmVerif.Gen.C09.semSize s) (a : Nat) :
     s.conns.countP (openAt a) ≤ 5 := by
-  obtain ⟨hi, hs⟩ := Reach.inv h
+  have hs := (Reach.inv h).2
   have h1 : s.conns.countP (openAt a) ≤ s.conns.countP (holdsAt a) := by
     apply List.countP_mono_left
     intro c _ hc
     simp only [openAt, Bool.and_eq_true] at hc
     simp only [holdsAt, Bool.and_eq_true]
     exact ⟨wopen_holding _ hc.1, hc.2⟩
-  have h2 := hi.sem a
+  have h2 := (Reach.sem h).cnt a
   have h3 : MitmVerif.Gen.C09.semSize = 5 := rfl
   omega
+
+/-- the semaphore (asyncio.Semaphore transcribed: counter, FIFO of waiters, hand-off on release, cancellation of
+    queued waiters) keeps its accounts for every schedule: free slots + tasks inside `async with` + waiters that
+    have been handed a slot but have not resumed yet = N, for every address, in every reachable state. -/
+theorem semaphore_accounts_balanced {n : Nat} {s : St} (h : Reach n s) (a : Nat) :
+    s.semv a + s.conns.countP (holdsAt a) + s.conns.countP (wokenAt a) = n := by
+  have := (Reach.sem h).cnt a
+  rw [(Reach.inv h).2] at this; exact this
+
+/-- hence, for any configured limit N: at most N upstream sockets to one address are open at any time, in every
+    reachable state of every schedule, cancellations of queued and of already-woken waiters included. -/
+theorem at_most_n_per_address {n : Nat} {s : St} (h : Reach n s) (a : Nat) :
+    s.conns.countP (openAt a) ≤ n := by
+  have h1 : s.conns.countP (openAt a) ≤ s.conns.countP (holdsAt a) := by
+    apply List.countP_mono_left
+    intro c _ hc
+    simp only [openAt, Bool.and_eq_true] at hc
+    simp only [holdsAt, Bool.and_eq_true]
+    exact ⟨wopen_holding _ hc.1, hc.2⟩
+  have := semaphore_accounts_balanced h a
+  omega
+
+/-- every queued waiter is an open_connection task for that address (the queue never holds foreign tasks) -/
+theorem waiters_are_tasks_of_the_address {n : Nat} {s : St} (h : Reach n s) (a : Nat) :
+    ∀ j ∈ s.waiters a, ∃ d, s.conns[j]? = some d ∧ d.addr = some a :=
+  (Reach.sem h).wl a
+
+/-- a task that is cancelled while it is still queued for a slot leaves the queue without touching the counter
+    of any address (it never held a slot, so it must not release one) -/
+theorem cancelled_waiter_keeps_count {s s' : St} {i : Nat} {c : Conn}
+    (hc : s.conns[i]? = some c) (hpc : c.pc = .semCancelled)
+    (h : step s (.act (.S i) .semcancel) = some s') : s'.semv = s.semv := by
+  simp only [step, hc, stepS, hpc] at h
+  simp only [applyCmds, Option.some.injEq] at h
+  subst h
+  unfold semEffect
+  split
+  · rfl
+  · simp [hpc]
 
 /-- when handle_client has returned (and the layer did not open a connection after handle_client had
     collected the transports to wait for), nothing is left: no transports entry, no open upstream or
@@ -128,32 +168,59 @@ example : ∃ s, Reach 5 s ∧ s.hpc = .returned ∧ (s.conns.map (fun c => (c.n
 
 /-- the model is not constant: the semaphore refuses a sixth holder, handle_client cannot return while a
     collected transport is still there, and a second OpenConnection for a live entry is refused -/
-example : run (init 1) [.act .H (.hook .cc), .act .H (.hookret .ok false),
+example : (run (init 1) [.act .H (.hook .cc), .act .H (.hookret .ok false),
     .act .H (.ev .start [.opn 0 (some 0), .opn 1 (some 0)]),
     .act (.S 0) .start, .act (.S 0) (.hook .sc), .act (.S 0) (.hookret .ok false), .act (.S 0) .semacq,
-    .act (.S 1) .start, .act (.S 1) (.hook .sc), .act (.S 1) (.hookret .ok false), .act (.S 1) .semacq] = none := by
+    .act (.S 1) .start, .act (.S 1) (.hook .sc), .act (.S 1) (.hookret .ok false), .act (.S 1) .semacq]).isNone = true := by
   decide
 
-example : run (init 5) [.act .H (.hook .cc), .act .H (.hookret .ok false),
-    .act .H (.ev .start [.opn 0 (some 0), .opn 0 (some 0)])] = none := by decide
+example : (run (init 5) [.act .H (.hook .cc), .act .H (.hookret .ok false),
+    .act .H (.ev .start [.opn 0 (some 0), .opn 0 (some 0)])]).isNone = true := by decide
 
-example : run (init 5) [.act .H (.hook .cc), .act .H (.hookret .ok true), .act .H .wclose,
-    .act .H (.hook .cd), .act .H (.hookret .ok false), .act .H .fin] ≠ none := by decide
+example : (run (init 5) [.act .H (.hook .cc), .act .H (.hookret .ok true), .act .H .wclose,
+    .act .H (.hook .cd), .act .H (.hookret .ok false), .act .H .fin]).isSome = true := by decide
 
 /-- the scheduler rules are not vacuous: handle_client cannot pass `asyncio.wait([handler])` before the client
     handler's callbacks have run, a callback cannot run before its task has finished, and the completion callback
     cannot overtake release_transport (the second `cb` is the one that counts the wait down) -/
-example : run (init 5) [.act .H (.hook .cc), .act .H (.hookret .ok false), .act .H (.ev .start []), .act .C .start,
+example : (run (init 5) [.act .H (.hook .cc), .act .H (.hookret .ok false), .act .H (.ev .start []), .act .C .start,
     .act .C (.readret .eof), .act .C (.ev .closed []), .act .C .wclose, .act .C .fin, .cb .C,
-    .act .H (.hook .cd)] = none := by decide
+    .act .H (.hook .cd)]).isNone = true := by decide
 
-example : run (init 5) [.act .H (.hook .cc), .act .H (.hookret .ok false), .act .H (.ev .start []), .act .C .start,
-    .cb .C] = none := by decide
+example : (run (init 5) [.act .H (.hook .cc), .act .H (.hookret .ok false), .act .H (.ev .start []), .act .C .start,
+    .cb .C]).isNone = true := by decide
 
 /-- handle_client's final wait cannot end while an awaited task's callbacks are pending -/
-example : run (init 5) [.act .H (.hook .cc), .act .H (.hookret .ok false), .act .H (.ev .start [.opn 0 (some 0)]),
+example : (run (init 5) [.act .H (.hook .cc), .act .H (.hookret .ok false), .act .H (.ev .start [.opn 0 (some 0)]),
     .act .C .start, .act .C (.readret .eof), .act .C (.ev .closed []), .act .C .wclose, .act .C .fin, .cb .C, .cb .C,
-    .act .H (.hook .cd), .act .H (.hookret .ok false), .act (.S 0) .fin, .cb (.S 0), .act .H .fin] = none := by decide
+    .act .H (.hook .cd), .act .H (.hookret .ok false), .act (.S 0) .fin, .cb (.S 0), .act .H .fin]).isNone = true := by decide
+
+/-- the semaphore with one slot and three openers: the second and third queue; the queued second one is cancelled —
+    the counter stays 0, the third is NOT woken, and a `release` by the cancelled task is not a behaviour of the code -/
+def queued3 : List Label :=
+  [.act .H (.hook .cc), .act .H (.hookret .ok false),
+   .act .H (.ev .start [.opn 0 (some 0), .opn 1 (some 0), .opn 2 (some 0)]),
+   .act (.S 0) .start, .act (.S 0) (.hook .sc), .act (.S 0) (.hookret .ok false), .act (.S 0) .semacq,
+   .act (.S 1) .start, .act (.S 1) (.hook .sc), .act (.S 1) (.hookret .ok false), .act (.S 1) .semwait,
+   .act (.S 2) .start, .act (.S 2) (.hook .sc), .act (.S 2) (.hookret .ok false), .act (.S 2) .semwait]
+
+example : ∃ s, run (init 1) (queued3 ++ [.act (.S 1) .creq, .act (.S 1) .semcancel]) = some s ∧
+    s.semv 0 = 0 ∧ s.waiters 0 = [2] ∧ (s.conns.map (·.pc)) = [.inConn, .preSE .canc, .inSem] :=
+  ⟨_, rfl, by decide⟩
+
+example : (run (init 1) (queued3 ++ [.act (.S 1) .creq, .act (.S 1) .semcancel, .act (.S 1) .semrel])).isNone = true := by
+  decide
+
+/-- hand-off: the holder's connect fails, its release hands the slot to the first waiter; that waiter is cancelled
+    after the hand-off and passes the slot on to the next one — the counter never exceeds what is free -/
+example : ∃ s, run (init 1) (queued3 ++ [.act (.S 0) (.connret .err), .act (.S 0) (.hook .se),
+      .act (.S 0) (.hookret .ok false), .act (.S 0) (.ev .cerr []), .act (.S 0) .semrel,
+      .act (.S 1) .creq, .act (.S 1) .semcancel]) = some s ∧
+    s.semv 0 = 0 ∧ s.waiters 0 = [2] ∧ (s.conns.map (·.pc)) = [.finishing, .preSE .canc, .semWoken] :=
+  ⟨_, rfl, by decide⟩
+
+/-- a queued task cannot take a slot it has not been handed, and the fast path is closed while somebody queues -/
+example : (run (init 1) (queued3 ++ [.act (.S 1) .semacq])).isNone = true := by decide
 
 /-- the hypothesis of `no_transports_after_return` is needed in this model: a layer that opens a connection
     while handle_client waits leaves an entry behind -/
